@@ -1,6 +1,7 @@
 package worlds
 
 import (
+	"context"
 	"crypto/ed25519"
 	crand "crypto/rand"
 	"crypto/tls"
@@ -303,9 +304,27 @@ func nickRun(e *Env) {
 	}
 	joinChannel()
 	uniq := 0
+	// an application may switch state tracking off and on again in mid-session
+	// (the tracker then starts afresh, knowing just the client): who the client
+	// is does not depend on it
+	toggles, trackOn := g.Pct(25), track
+	if toggles {
+		e.S.Count("probe.tracking-switched-off-and-on-in-mid-session")
+	}
 	for i, x := range evs {
 		if e.S.Failed() {
 			return
+		}
+		if toggles && g.S.Choose(3) == 0 {
+			if trackOn {
+				c.DisableStateTracking()
+			} else {
+				c.EnableStateTracking()
+			}
+			trackOn = !trackOn
+			if !checkpoint(fmt.Sprintf("before event %d, tracking just switched %s", i, map[bool]string{true: "on", false: "off"}[trackOn])) {
+				return
+			}
 		}
 		uniq++
 		where := fmt.Sprintf("event %d", i)
@@ -626,7 +645,9 @@ func regRun(e *Env) {
 		return
 	}
 	nick := g.Str(alnum[:52], 1, 9)
-	ident := []string{"", "ident", "a"}[g.Intn(3)]
+	// (an ident is sent as configured, whatever it looks like: "~bot" is what a
+	// server without identd reports, and what an application may copy back)
+	ident := []string{"", "ident", "a", "~bot", "~", "i-d_e.n^t"}[g.Intn(6)]
 	// (free text is sent as configured, blanks at its end included)
 	// (... and octets that are not UTF-8: a Latin-1 name, a binary password)
 	name := []string{"", "Real Name", "x", "name with : colon", "Trailing Blank ", "tab at the end\t", "Jos\xe9 Mu\xf1oz", "\u65e5\u672c"}[g.Intn(8)]
@@ -1793,6 +1814,25 @@ func logRun(e *Env) {
 				c.Config().Pass = "another-password"
 			}
 		})
+	}
+	if g.Pct(20) {
+		// a busy relay that does not wait for the connection to be up: while the
+		// dial is still in progress another goroutine hands over more lines than
+		// the output queue holds, so the PASS line finds the queue full
+		e.S.Count("fault.output-queue-full-before-the-pass-line")
+		relays := 0
+		e.DialWait = func(ctx context.Context, n int) error {
+			handed := 0
+			relays++
+			e.S.Spawn(fmt.Sprintf("relay%d", relays), func() {
+				for i := 0; i < 40; i++ {
+					c.Privmsg("#relay", fmt.Sprintf("relayed traffic %d", i))
+					handed++
+				}
+			})
+			simrt.BlockFor("log.dial", "the relay to fill the output queue", time.Second, func() bool { return handed >= 32 })
+			return nil
+		}
 	}
 	err := c.Connect()
 	// several sessions in quick succession, with traffic: the flood penalty
